@@ -201,6 +201,7 @@ def streams(tier, rng, P, only=None, cases=None):
         want_log = "\n".join(want_log.split("\n")[:100])          # the log keeps at most 100 entries (C19)
         if len(want_log) > 4096: want_log = want_log[:4096] + "..."
         want_notes = m[0].split("notes=")[1].split(" ")[0]
+        if re.search(r"\d{18,}", want_log): return None      # values beyond 64 bits: the model's integers are unbounded, the domain is |n| < 2^63
         got_log = unhx(f.get("log", "~")).decode("utf-8", "replace")
         got_notes = ",".join(e.split(":")[3] for e in f["tracks"].split(";")[0].split(",") if e.startswith("on:"))
         if got_log != want_log:
@@ -242,6 +243,7 @@ def streams(tier, rng, P, only=None, cases=None):
         want_log = unhx(d["log"]).decode("utf-8", "replace") if d["log"] != "~" else ""
         want_log = "\n".join(want_log.split("\n")[:100])
         got_log = norm_log(unhx(f["log"]).decode("utf-8", "replace")) if f["log"] != "~" else ""
+        if re.search(r"\d{18,}", want_log): return None      # values beyond 64 bits (the model's integers are unbounded)
         if len(want_log) > 4000 or len(got_log) > 4000: got_log = got_log[:4000]; want_log = want_log[:4000]
         if got_log != want_log: return ("mismatch", "literal script model log differs: real %r model %r" % (got_log[-160:], want_log[-160:]))
         if f["notes"] != d["notes"]: return ("mismatch", "literal script model notes differ: real %s model %s" % (f["notes"][-80:], d["notes"][-80:]))
